@@ -764,6 +764,10 @@ impl Router {
                             ackslog.unsuback(unsuback);
                             self.scheduler.untrack(id, filter);
                             self.datalog.remove_waiters_for_id(id, filter);
+                            // a publish earlier in this batch may already have moved the
+                            // parked request of this subscription to the wake-up list
+                            self.notifications
+                                .retain(|(cid, req)| *cid != id || req.filter != *filter);
                             force_ack = true;
                         }
                     }
